@@ -8,6 +8,9 @@
 //   - ctx.go configDependentPaths: the same for the request's treePathHash
 //   - ctx.go Path: whether the override branch calls syncIndexRoute after configDependentPaths
 //   - router.go addRoute: the text of the duplicate-merge condition
+//   - router.go register, ctx.go configDependentPaths, helpers.go getGroupPath: the normalisation statements
+//   - ctx.go Method: the condition under which the override calls syncIndexRouteMethod; ctx.go
+//     syncIndexRouteMethod: the early-return guard, the two loop conditions and what the loops count
 package main
 
 import (
@@ -101,6 +104,20 @@ func funcDecl(f *ast.File, recv, name string) *ast.FuncDecl {
 		}
 	}
 	die("func %s.%s not found", recv, name)
+	return nil
+}
+
+// funcDeclOpt is funcDecl without dying: nil when the function does not exist
+func funcDeclOpt(f *ast.File, recv, name string) *ast.FuncDecl {
+	for _, d := range f.Decls {
+		fd, ok := d.(*ast.FuncDecl)
+		if !ok || fd.Name.Name != name {
+			continue
+		}
+		if fd.Recv != nil && len(fd.Recv.List) == 1 && strings.Contains(text(fd.Recv.List[0].Type), recv) {
+			return fd
+		}
+	}
 	return nil
 }
 
@@ -290,6 +307,65 @@ func main() {
 	if mergeCond == "" {
 		die("addRoute merge condition not found")
 	}
+	// Method(override): the condition of the branch that calls syncIndexRouteMethod, and the statements of that branch
+	methodGuard, methodBranch := "", ""
+	ast.Inspect(funcDecl(ctxF, "DefaultCtx", "Method").Body, func(n ast.Node) bool {
+		if is, ok := n.(*ast.IfStmt); ok && strings.Contains(text(is.Body), "syncIndexRouteMethod(") {
+			methodGuard = text(is.Cond)
+			var sts []string
+			for _, st := range is.Body.List {
+				sts = append(sts, text(st))
+			}
+			methodBranch = strings.Join(sts, "; ")
+		}
+		return true
+	})
+	// syncIndexRouteMethod: early-return guard, the `for` headers with the `if` inside each, the final assignment
+	var resyncGuard string
+	var resyncLoops []string
+	resyncAssign := ""
+	if fd := funcDeclOpt(ctxF, "DefaultCtx", "syncIndexRouteMethod"); fd != nil {
+		for _, st := range fd.Body.List {
+			switch v := st.(type) {
+			case *ast.IfStmt:
+				if resyncGuard == "" && strings.Contains(text(v.Body), "return") {
+					resyncGuard = text(v.Cond)
+				}
+			case *ast.ForStmt:
+				inner := ""
+				for _, b := range v.Body.List {
+					if is, ok := b.(*ast.IfStmt); ok {
+						var sts []string
+						for _, x := range is.Body.List {
+							sts = append(sts, text(x))
+						}
+						inner = "if " + text(is.Cond) + " { " + strings.Join(sts, "; ") + " }"
+					}
+				}
+				resyncLoops = append(resyncLoops, text(v.Init)+"; "+text(v.Cond)+"; "+text(v.Post)+" :: "+inner)
+			case *ast.AssignStmt:
+				if strings.HasPrefix(text(v), "c.indexRoute") {
+					resyncAssign = text(v)
+				}
+			}
+		}
+	}
+	// normalisation statements (top level, in order)
+	var regNorm, cdpNorm, ggpNorm []string
+	for _, st := range funcDecl(routerF, "App", "register").Body.List {
+		t := text(st)
+		if strings.HasPrefix(t, "if pathRaw") || strings.HasPrefix(t, "pathPretty :=") || strings.HasPrefix(t, "if !app.config.") ||
+			strings.HasPrefix(t, "pathClean :=") {
+			regNorm = append(regNorm, t)
+		}
+	}
+	for _, st := range funcDecl(ctxF, "DefaultCtx", "configDependentPaths").Body.List {
+		cdpNorm = append(cdpNorm, text(st))
+	}
+	helpersF := parse(filepath.Join(*repo, "helpers.go"))
+	for _, st := range funcDecl(helpersF, "", "getGroupPath").Body.List {
+		ggpNorm = append(ggpNorm, text(st))
+	}
 	var b strings.Builder
 	b.WriteString("-- GENERATED by translator/c01 from /repo (ctx.go, app.go, router.go); do not edit.\n")
 	b.WriteString("namespace C01.Facts\n\n")
@@ -302,6 +378,11 @@ func main() {
 	fmt.Fprintf(&b, "def reqHashGuards : List String := %s\n", leanStrs(reqConds))
 	fmt.Fprintf(&b, "/-- ctx.go Path(override) calls syncIndexRoute after configDependentPaths -/\ndef pathOverrideResyncs : Bool := %v\n", resync)
 	fmt.Fprintf(&b, "/-- router.go addRoute: condition of the duplicate merge -/\ndef mergeCond : String := %s\n", strconv.Quote(mergeCond))
+	fmt.Fprintf(&b, "/-- ctx.go Method(override): condition and statements of the branch that re-derives the cursor -/\ndef methodOverrideGuard : String := %s\ndef methodOverrideBranch : String := %s\n", strconv.Quote(methodGuard), strconv.Quote(methodBranch))
+	fmt.Fprintf(&b, "/-- ctx.go syncIndexRouteMethod: early-return guard; `init; cond; post :: if` of its loops; final assignment -/\ndef methodResyncGuard : String := %s\ndef methodResyncLoops : List String := %s\ndef methodResyncAssign : String := %s\n", strconv.Quote(resyncGuard), leanStrs(resyncLoops), strconv.Quote(resyncAssign))
+	fmt.Fprintf(&b, "/-- router.go register: the path normalisation statements, in order -/\ndef registerNorm : List String := %s\n", leanStrs(regNorm))
+	fmt.Fprintf(&b, "/-- ctx.go configDependentPaths: all statements, in order -/\ndef configDependentPathsStmts : List String := %s\n", leanStrs(cdpNorm))
+	fmt.Fprintf(&b, "/-- helpers.go getGroupPath: all statements, in order -/\ndef getGroupPathStmts : List String := %s\n", leanStrs(ggpNorm))
 	b.WriteString("\nend C01.Facts\n")
 	if err := os.WriteFile(*out, []byte(b.String()), 0o644); err != nil {
 		die("%v", err)
